@@ -1192,8 +1192,10 @@ def main(run):
         ops, shape = rand_history(rng, uniform)
         hist_case(run, tools, ops, uniform, "random", terms, cases, sample=it < 3, shape=shape)
     run.correspond("random", "C18", terms, cases, check=gen_check, requires=gen_reqs)
-    gen_evaluated = gen_evaluated + len(terms) if gen_check != "check" else 0
+    gen_evaluated += len(terms) if gen_check != "check" else 0
     if gen_unproved:
+        # translated but not provably the model: do the regenerated definitions at least agree with the implementation?
+        diag_terms, diag_cases = list(terms), list(cases)
         # the regenerated definitions are no longer provably the model: search beyond the regular sizes for an
         # input on which the implementation leaves the property / the model
         terms, cases = [], []
@@ -1202,6 +1204,28 @@ def main(run):
             hist_case(run, tools, ops, True, "wide search after the tie (T) broke", terms, cases, shape=shape)
         run.correspond("wide", "C18", terms, cases, shard=20)
         run.notes.append("tie (T) broke: %d long histories (30..70 records, full index range) searched in addition" % len(terms))
+        diag_terms += terms
+        diag_cases += cases
+        ok_, out = vlib.make_targets(["Corr/C18_gen.vo"])
+        if ok_:
+            traces, ndis = run.traces, len(run.disagreements)
+            try:
+                bad = run.correspond("diagnosis_regenerated", "C18", diag_terms, diag_cases, check="check_gen",
+                                     requires=["From DV Require Import Corr.C18_gen."], shard=40)
+                errs = run.corr_groups.get("diagnosis_regenerated", {}).get("errors")
+                ng = None if errs else len(bad)
+            except Exception as e:  # noqa
+                ng = None
+                run.notes.append("diagnosis step failed: %r" % (e,))
+            finally:
+                run.traces = traces
+                del run.disagreements[ndis:]
+                run.corr_groups.pop("diagnosis_regenerated", None)
+            run.notes.append("diagnosis: the regenerated definitions (not provably equal to the model) disagree with the "
+                             "implementation on %s of %d random / long histories" % (ng, len(diag_terms)))
+            run.extra_cov["regenerated_vs_implementation"] = {"sampled": len(diag_terms), "disagree": ng}
+        else:
+            run.notes.append("diagnosis: the regenerated definitions do not compile: " + out[-400:])
     phases["random"] = round(time.time() - t1, 1)
     t1 = time.time()
 
